@@ -394,7 +394,7 @@ func runC39() {
 	delays := []time.Duration{0, 0, time.Millisecond, 5 * time.Millisecond, 50 * time.Millisecond, 300 * time.Millisecond}
 	types := []uint8{protocol.ControlTypeStatus, protocol.ControlTypePeers, protocol.ControlTypeRoutes}
 	for round := 0; round < rounds; round++ {
-		nreq := 2 + simrt.Choose(n-1, "nreq")
+		nreq := 2 + simrt.Choose(n+1, "nreq") // more than n: some agents have two calls outstanding
 		start := simrt.Choose(n, "first")
 		var batch []*ctlReq
 		for k := 0; k < nreq; k++ {
@@ -462,6 +462,13 @@ func (w *c39World) roundProbes(batch []*ctlReq) {
 		id      uint64
 	}
 	seen := map[key]*ctlReq{}
+	calls := map[int]int{}
+	for _, r := range batch {
+		calls[r.from]++
+		if calls[r.from] == 2 {
+			simrt.Probe("c39_two_calls_outstanding_at_one_agent")
+		}
+	}
 	for _, r := range batch {
 		if len(r.hops) >= 3 {
 			simrt.Probe("c39_request_over_two_transits")
